@@ -47,7 +47,7 @@ PROBES = ["scenario_constant_then_scenario_reset", "long_stochastic_run", "edit_
           "run_repeated", "scenario_reset_cache"]
 EXHAUSTIVE = {"quick": False, "thorough": False}
 
-ELEMS = ["k1", "k2", "c1", "c2", "f1", "b1", "s1", "s2"]
+ELEMS = ["k1", "k2", "c1", "c2", "f1", "b1", "s1", "s2", "c3"]
 NTPL = {"c1": 3, "c2": 3, "f1": 3, "b1": 3, "s1": 3, "s2": 3}
 INIT_CHOICES = [0.0, 2.0, 100.0, "k1", "k2"]
 
@@ -95,6 +95,10 @@ def build(defs, start, stop, dt):
         iv = defs[n + "_init"]
         m.stocks[n].initial_value = m.constants[iv] if isinstance(iv, str) else float(iv)
         m.stocks[n].equation = _eq(m, n, defs[n])
+    # c3 depends on k2 only THROUGH the body of a user function (the model handle), not through anything its equation names
+    taxed = m.function("taxed", lambda model, t, x: x * (1.0 + model.evaluate_equation("k2", t)))
+    m.converter("c3")
+    m.converters["c3"].equation = taxed(m.converters["c1"])
     return m
 
 
